@@ -9,3 +9,12 @@ pub(crate) use self::tabu_list::TabuList;
 
 mod termination;
 pub(crate) use self::termination::*;
+
+/// Verification hook: public re-exports of the search utilities.
+#[cfg(reinterpretcat_vrp_verif)]
+pub mod verif {
+    pub use super::removal::*;
+    pub use super::selection::*;
+    pub use super::tabu_list::TabuList;
+    pub use super::termination::*;
+}
